@@ -29,7 +29,7 @@ BASE_PROFILE = {
               'add_capacity': 1, 'adjust_budget': 0.7, 'rewire': 0.3, 'offset_cycle': 0.7},
     'p_maintainer': 0.6, 'p_ct_script': 0.2, 'p_value_cb': 0.4, 'p_collect': 0.5,
     'values': [0, 0.5, 1, 1.5, 2.25, 3], 'qualities': [1, 0.5, 0.75, 0.25],
-    'p_same_instant': 0.3, 'p_initial_value': 0.0, 'p_poke': 0.0, 'p_trace': 0.0,
+    'p_same_instant': 0.3, 'p_initial_value': 0.0, 'p_poke': 0.0, 'p_trace': 0.0, 'p_scheduler': 0.2,
     'max_events': 20000,
 }
 
@@ -66,6 +66,7 @@ def profile(name):
         p['n_stages'] = (3, 8)
         p['ops_w'].update({'block': 3, 'unblock': 3})
         p['p_collect'] = 0.9
+        p['p_scheduler'] = 0.4
     elif name == 'resources':     # C11 / C10
         p['stage_w'].update({'processor': 9, 'group': 1.5, 'handler': 1, 'buffer': 2})
         p['p_resources'] = 1.0
@@ -99,6 +100,7 @@ def profile(name):
         p['p_maintainer'] = 0.95
         p['p_resources'] = 0.8
         p['p_trace'] = 0.34
+        p['p_scheduler'] = 0.6
         p['p_batch_source'] = 0.25
         p['ops_w'].update({'work_order': 4, 'fail': 3})
         p['stage_w'].update({'buffer': 5, 'processor': 6})
@@ -337,6 +339,16 @@ class Gen:
             if rng.random() < p['p_initial_value']:
                 mi['value'] = rng.choice([5, 100, -2.5])
             maint = self.add(mi)
+        if rng.random() < p['p_scheduler']:
+            # an operating schedule that blocks / unblocks the input of one or two devices
+            cands = [i['id'] for i in self.items if i['kind'] in ('handler', 'processor', 'buffer', 'gate', 'flow',
+                                                                   'path', 'batcher', 'sink')]
+            if cands:
+                self.add({'id': self.nid('AS'), 'kind': 'scheduler',
+                          'timetable': [[rng.choice([1, 2, 3, 0.5, 4]), True], [rng.choice([0.5, 1, 2, 0]), False]]
+                          + ([[rng.choice([1, 2]), True]] if rng.random() < 0.3 else []),
+                          'cyclical': rng.choice([True, True, None, False]),
+                          'targets': rng.sample(cands, min(len(cands), rng.choice([1, 1, 2])))})
         horizon = float(rng.randint(*p['horizon']))
         segs = [horizon]
         if rng.random() < p['p_split']:
